@@ -142,6 +142,34 @@ func (w *Wire) resolveSliceLit(info *types.Info, files []*ast.File, e ast.Expr) 
 			return nil, false // reassigned: not a fixed configuration
 		}
 		return found, ok
+	case *ast.CallExpr:
+		// f(args) / recv.m(args) declared in these files whose body has exactly one return statement returning a composite
+		// literal (an extracted "list of …" helper)
+		obj := calleeObj(info, x)
+		if obj == nil {
+			return nil, false
+		}
+		for _, f := range files {
+			for _, d := range f.Decls {
+				fd, isFn := d.(*ast.FuncDecl)
+				if !isFn || fd.Body == nil || info.Defs[fd.Name] != obj {
+					continue
+				}
+				var rets []*ast.ReturnStmt
+				ast.Inspect(fd.Body, func(nd ast.Node) bool {
+					if _, isLit := nd.(*ast.FuncLit); isLit {
+						return false
+					}
+					if rs, isRet := nd.(*ast.ReturnStmt); isRet {
+						rets = append(rets, rs)
+					}
+					return true
+				})
+				if len(rets) == 1 && len(rets[0].Results) == 1 {
+					return w.resolveSliceLit(info, files, rets[0].Results[0])
+				}
+			}
+		}
 	}
 	return nil, false
 }
@@ -219,7 +247,14 @@ func BuildWire(p *Prog) *Wire {
 						}
 					case name == "sdk/types.ChainAnteDecorators":
 						w.AntePos = x.Pos()
-						for _, a := range x.Args {
+						anteArgs := x.Args
+						if x.Ellipsis.IsValid() && len(x.Args) == 1 {
+							// ChainAnteDecorators(list...) — a variable or an extracted helper holding the literal list
+							if els, ok := w.resolveSliceLit(info, pk.Syntax, x.Args[0]); ok {
+								anteArgs = els
+							}
+						}
+						for _, a := range anteArgs {
 							if c, ok := a.(*ast.CallExpr); ok {
 								w.Ante = append(w.Ante, objFull(calleeObj(info, c)))
 							} else {
